@@ -97,6 +97,7 @@ class TwoEndedLink(link.Link):
             old.remove_from_link(self)
         if (new is not None) and (self not in new.links):
             new.add_to_link(self)
+        self._invalidate_neighbor_caches()
 
     @property
     def v2(self) -> Vertex:
@@ -129,6 +130,7 @@ class TwoEndedLink(link.Link):
             old.remove_from_link(self)
         if (new is not None) and (self not in new.links):
             new.add_to_link(self)
+        self._invalidate_neighbor_caches()
 
     def other(self, end: Vertex) -> Vertex | None:
         """
